@@ -298,6 +298,7 @@ func runC03(c *Ctx) {
 	rr := c.ReachFrom("eval+builtins", c.evalRoots()...)
 	c03Recover(c, entry, rr)
 	c03NoEscape(c, entry, rr)
+	c.postRecover("C03.handler-cannot-panic", entry, "Resolve", "building the error from the recovered value", 1)
 	c03Shape(c, entry, d)
 	c03Exhaustive(c, d)
 	c03Recursion(c, entry, d, rr)
@@ -308,6 +309,8 @@ func runC03(c *Ctx) {
 			c11Arity(c, br, "C03.argument-count-is-error")
 		}
 	}
+	// comparing arrays or maps is an error only as long as a nil slice / map is not taken for null (null == null is true)
+	nullDefinition(c, "C03.null-definition")
 	if reader := c.memberReader(d); reader != nil {
 		c.structFieldRules("C03.member-read-errors", reader, false)
 	} else {
